@@ -9,9 +9,6 @@ at position `at` is the one the spec lists, that the outcome class is in Allowed
 the set of recorded cases equals the spec's Cases for the slice that was run.
 """
 import json
-import os
-import sys
-import time
 
 from vlib import tlc, check
 from bind import c13_drivers as D
